@@ -26,7 +26,7 @@ ASSUMPTIONS = [
     "library calls in the frozen no-raise table of sa/effects.py do not raise (logging, loop.time/create_task, set/deque ops, StreamWriter.write/close/is_closing)",
     "asyncio.open_connection / drain / wait_closed raise only OSError family; CancelledError is outside the lattice",
 ]
-FLOORS = {"C07.R1": 5, "C07.R2": 7, "C07.R3": 3, "C07.R4": 5, "C07.R5": 2, "C07.R6": 3, "C07.R7": 6, "C07.R8": 3, "C07.R9": 4, "C07.R10": 1, "C07.R11": 5, "C07.R12": 1, "C07.R13": 1}
+FLOORS = {"C07.R1": 5, "C07.R2": 7, "C07.R3": 3, "C07.R4": 5, "C07.R5": 2, "C07.R6": 3, "C07.R7": 6, "C07.R8": 3, "C07.R9": 4, "C07.R10": 1, "C07.R11": 5, "C07.R12": 1, "C07.R13": 1, "C07.R14": 1}
 
 
 def run(ctx):
@@ -48,6 +48,10 @@ def run(ctx):
 
     reuse(ctx, "C07.R12", [c03.r2], "a header whose length fields contradict each other is refused (and the connection reset) instead of making the read loop wait for bytes that never come (C03.R2)",
           keep=lambda o: "rejects" in o.construct or o.verdict != "HOLDS")
+    from . import c13
+
+    reuse(ctx, "C07.R14", [lambda c: c13.r1(c, "C13.R1")], "a legal frame never becomes an exception in the read path: header, payload (also an empty one) and check bytes are read unconditionally, in that order, with the announced lengths (C13.R1) - otherwise every such frame costs a reset",
+          keep=lambda o: o.construct.startswith("_read_one_message") or o.verdict != "HOLDS")
     reuse(ctx, "C07.R10", [c01.r1], "a message is taken out of the queue before the attempt to write it, so one that cannot be encoded is gone when its error is handled and cannot block every later command (C01.R1)",
           keep=lambda o: "_drain_message_queue" in o.construct or o.verdict != "HOLDS")
 
@@ -256,6 +260,20 @@ def r3(ctx):
         fb = con.branch(t, "false")
         ok = g.all_paths_pass(fb.id, [g.exit.id], [n.id for n, _ in retries], NONEXC)
         ctx.check(ok, R, "_connect:retry-when-unconnected", m, t.ast, "the not-connected branch always schedules the retry", "a not-connected path ends without scheduling a retry")
+    # nothing but a cancellation ends _connect before its retry test: the effect analysis finds no exception class that can leave
+    # the function (an attribute access on a writer that a concurrent reset may have cleared, an unresolved call in the try body
+    # that raises something other than OSError, ... would kill the task and end the retry chain)
+    from ..effects import EMPTY as _E0, is_top as _top0
+
+    worst0 = None
+    for t_ in [x for x in ast.walk(con.node) if isinstance(x, ast.Try)]:
+        for st_ in t_.body:
+            if any(isinstance(x, ast.Call) and (dotted(x.func) or "").endswith("_drain_message_queue") for x in ast.walk(st_)):
+                continue  # the flush: an encoder failure there concerns a connection that is already up (decided by C07.R6/C02)
+            e_ = ctx.effects.of_stmt(st_, m, con.cls)
+            if _top0(e_) or (e_ - {"OSError"}):
+                worst0 = worst0 or (st_, e_)
+    ctx.check(worst0 is None, R, "_connect:only-OSError-in-the-attempt", m, (worst0[0] if worst0 else con.node), "inside the try of _connect only OSError can be raised (and is handled): no statement can throw past the handler and the retry test", f"`{norm_text(worst0[0])[:70]}` may raise {'any exception' if _top0(worst0[1]) else sorted(worst0[1] - {'OSError'})}" if worst0 else "")
     # the OSError handler neither returns nor raises
     hs = [h for h in con.handlers() if any(t.split(".")[-1] == "OSError" for t in h.meta["types"])]
     ctx.check(bool(hs), R, "_connect:OSError-handled", m, con.node, "connection refusals (OSError) are caught in _connect", "no OSError handler")
